@@ -1,5 +1,6 @@
 import MosdnsVerif.Base.Hex
 import MosdnsVerif.Model.C08Inst
+import MosdnsVerif.Refine.C08
 
 namespace Driver.C08
 open Model.C08 Model.C08Inst
@@ -14,13 +15,14 @@ def showOutcome : Outcome → String
   | .ok => "ok" | .errClosed => "errClosed" | .errDial => "errDial" | .errReserve => "errReserve"
   | .errFresh => "errFresh" | .errGaveUp => "errGaveUp" | .stuck => "stuck"
 
-/-- `loop <reuse|pipeline> <turns>` -/
+/-- `loop <reuse|pipeline> <turns>`: runs the loop over the *regenerated* loop body
+(`Refine.C08.reuseLoopGen_eq` / `pipelineLoopGen_eq`: it is the model's loop) -/
 def handle : List String → String
   | ["loop", kind, ts] =>
     match (ts.splitOn ",").mapM turn? with
     | some ts =>
       let r? := match kind with
-        | "reuse" => some (reuseLoop ts) | "pipeline" => some (pipelineLoop ts) | _ => none
+        | "reuse" => some (Refine.C08.reuseLoopGen ts) | "pipeline" => some (Refine.C08.pipelineLoopGen ts) | _ => none
       match r? with
       | some r => showOutcome r.outcome ++ " attempts=" ++ toString r.attempts ++ (if r.lastPooledCtxEnded then " ctx" else "")
       | none => "bad-op"
